@@ -19,6 +19,7 @@ PARTS += ["chordfns"]
 PARTS += ["chordfns_rotate"]
 PARTS += ["segindex"]
 PARTS += ["utilint"]      # mir_eval/util.py interval pre-processing -> MirGen/UtilInt.lean (C13)
+PARTS += ["chordseg"]     # mir_eval/chord.py segmentation / weighting -> MirGen/ChordSeg.lean (C12; translator: utilint.py)
 PARTS += ["multipitch"]   # mir_eval/multipitch.py count functions, resampling, metrics -> MirGen/Multipitch.lean (C18)
 PARTS += ["evglue"]       # event-metric glue: util.match_events / _fast_hit_windows, onset / beat F, segment.detection / deviation -> MirGen/EvGlue.lean (C04)
 PARTS += ["chordcmp"]     # mir_eval/chord.py comparison functions -> MirGen/ChordCmp.lean (C11)
